@@ -179,47 +179,70 @@ theorem C09_proxy_pure (ft : FnType) (acc : Access) (bk : BodyKind) (a : Args) (
     | (simp [supported] at h; done)
     | exact ⟨rfl, rfl, rfl, rfl, rfl, rfl, rfl, rfl⟩
 
+/-- **truthiness of the receiver and the history of accesses are irrelevant**: whatever the truth value of the
+    generated instances / classes (`falsy`) and whatever look-ups of the same attribute through other access paths
+    came before (`pre`, an ARBITRARY list), the property demands the same observations (`spec` does not read them)
+    and the model produces the same observations: the binders test `instance is None`, never its truth value, and
+    `__get__` keeps no state between accesses.  Together with `C09_spec_holds` (which quantifies over every `Case`,
+    hence over every `falsy` and `pre`): a falsy receiver is bound exactly like a truthy one, and a look-up through
+    the subclass after one through the base class (or the other way round) binds its own class. -/
+theorem C09_truthiness_history_irrelevant (c : Case) (falsy : Bool) (pre : List Access) (r : Report) :
+    modelReport { c with falsy := falsy, pre := pre } = modelReport c ∧
+    refReport { c with falsy := falsy, pre := pre } = refReport c ∧
+    spec { c with falsy := falsy, pre := pre } r = spec c r :=
+  ⟨rfl, rfl, rfl⟩
+
+/-- per access in a sequence: the receiver a look-up binds is a function of THAT access path alone - base class
+    then subclass, subclass then base class, instances in between: each gets exactly Python's receiver -/
+theorem C09_receiver_per_access (k : Kind) (ft : FnType) (bk : BodyKind) (accs : List Access)
+    (h : ∀ acc ∈ accs, supported k ft acc = true) :
+    accs.map (fun acc => modelRecv ⟨k, ft, acc, bk⟩) = accs.map (fun acc => (refPrefix ft acc 0).headD 0) := by
+  apply List.map_congr_left
+  intro acc hacc
+  exact modelRecv_eq_ref k ft acc bk (h acc hacc)
+
 /-! ## non-vacuity -/
 
 /-- a classmethod fetched through an instance of the subclass, called with a positional, a keyword-only and an
-    unknown keyword argument: the body sees the SUBCLASS once, then the arguments -/
+    unknown keyword argument - the instance being falsy, after look-ups through the base class and one of its
+    instances: the body sees the SUBCLASS once, then the arguments -/
 example :
-    (modelReport ⟨⟨.pair, .classm, .subInst, .gen⟩, false, .mixed, ⟨[30, 31, 32], [(3, 40), (5, 41)]⟩⟩).obs.head? =
+    (modelReport ⟨⟨.pair, .classm, .subInst, .gen⟩, false, .mixed, ⟨[30, 31, 32], [(3, 40), (5, 41)]⟩, true, [.cls, .inst]⟩).obs.head? =
       some ⟨.sync, [⟨2, [4, 30, 31, 0, 32, 0, 40, 0, 5, 41], true⟩], .ok 2 false, false⟩ := by decide
 
 example :
-    ((modelReport ⟨⟨.dedup, .plain, .cls, .batch⟩, true, .fixed, ⟨[30], [(2, 31)]⟩⟩).obs.getLast?).map (·.log.map (·.body)) =
+    ((modelReport ⟨⟨.dedup, .plain, .cls, .batch⟩, true, .fixed, ⟨[30], [(2, 31)]⟩, false, []⟩).obs.getLast?).map (·.log.map (·.body)) =
       some [3, 1] := by decide
 
 /-- binding errors are outcomes too, the same for every convention -/
 example :
-    (modelReport ⟨⟨.mad, .static, .inst, .plain⟩, false, .fixed, ⟨[30, 31, 32], []⟩⟩).obs.map (·.out) =
+    (modelReport ⟨⟨.mad, .static, .inst, .plain⟩, false, .fixed, ⟨[30, 31, 32], []⟩, false, []⟩).obs.map (·.out) =
       List.replicate 10 (.raised .typeError) := by decide
 
 /-- the predicate is not trivially true: it rejects the observations a pair decorator would produce if `__get__`
     forgot to re-wrap a staticmethod (the instance is prepended on the async side only) ... -/
 example :
-    spec ⟨⟨.pair, .static, .inst, .plain⟩, false, .var, ⟨[30], []⟩⟩
-      { modelReport ⟨⟨.pair, .static, .inst, .plain⟩, false, .var, ⟨[30], []⟩⟩ with
-        obs := (modelReport ⟨⟨.pair, .static, .inst, .plain⟩, false, .var, ⟨[30], []⟩⟩).obs.map fun o =>
+    spec ⟨⟨.pair, .static, .inst, .plain⟩, false, .var, ⟨[30], []⟩, false, []⟩
+      { modelReport ⟨⟨.pair, .static, .inst, .plain⟩, false, .var, ⟨[30], []⟩, false, []⟩ with
+        obs := (modelReport ⟨⟨.pair, .static, .inst, .plain⟩, false, .var, ⟨[30], []⟩, false, []⟩).obs.map fun o =>
           if o.cv = .asynqValue then { o with log := [⟨1, [0, 1, 30, 0, 0], true⟩] } else o } = false := by decide
 
 /-- the regression case of the repaired defect: a module-level `@async_proxy(pure=True)` function is accepted ... -/
 example :
-    spec ⟨⟨.proxyPure, .plain, .direct, .plain⟩, false, .fixed, ⟨[30], []⟩⟩
-      (modelReport ⟨⟨.proxyPure, .plain, .direct, .plain⟩, false, .fixed, ⟨[30], []⟩⟩) = true := by decide
+    spec ⟨⟨.proxyPure, .plain, .direct, .plain⟩, false, .fixed, ⟨[30], []⟩, false, []⟩
+      (modelReport ⟨⟨.proxyPure, .plain, .direct, .plain⟩, false, .fixed, ⟨[30], []⟩, false, []⟩) = true := by decide
 
 /-- ... and what the unrepaired code produced (a future object out of `async_call`) is rejected -/
 example :
-    spec ⟨⟨.proxyPure, .plain, .direct, .plain⟩, false, .fixed, ⟨[30], []⟩⟩
-      { modelReport ⟨⟨.proxyPure, .plain, .direct, .plain⟩, false, .fixed, ⟨[30], []⟩⟩ with
-        obs := (modelReport ⟨⟨.proxyPure, .plain, .direct, .plain⟩, false, .fixed, ⟨[30], []⟩⟩).obs.map fun o =>
+    spec ⟨⟨.proxyPure, .plain, .direct, .plain⟩, false, .fixed, ⟨[30], []⟩, false, []⟩
+      { modelReport ⟨⟨.proxyPure, .plain, .direct, .plain⟩, false, .fixed, ⟨[30], []⟩, false, []⟩ with
+        obs := (modelReport ⟨⟨.proxyPure, .plain, .direct, .plain⟩, false, .fixed, ⟨[30], []⟩, false, []⟩).obs.map fun o =>
           if o.cv = .asyncCall then { o with out := .gotFuture } else o } = false := by decide
 
 /-- ... and a helper that misclassifies -/
 example :
-    spec ⟨⟨.pure, .plain, .inst, .plain⟩, false, .var, ⟨[], []⟩⟩
-      { modelReport ⟨⟨.pure, .plain, .inst, .plain⟩, false, .var, ⟨[], []⟩⟩ with
+    spec ⟨⟨.pure, .plain, .inst, .plain⟩, false, .var, ⟨[], []⟩, false, []⟩
+      { modelReport ⟨⟨.pure, .plain, .inst, .plain⟩, false, .var, ⟨[], []⟩, false, []⟩ with
         cls := ⟨true, false, false, .self, .self⟩ } = false := by decide
 
 end AsynqModel.Decorators
